@@ -53,3 +53,146 @@ def run(w):
         out.append(f"{g(R.PC)},{g(R.S)},{g(R.F) & 3},{emu.memory.read_byte(IMEM + 0xFB) & 0xFF},{emu.memory.read_byte(IMEM + 0xFC) & 0xFF},"
                    f"{int(bool(emu._in_interrupt))},{int(emu.irq_counts.get('total', 0))},{int(bool(emu.cpu.state.halted))},{frame}")
     return ";".join(out)
+
+
+# ---- C16: snapshot at step k, continue vs restore-and-continue -----------------------------------
+import hashlib  # noqa: E402
+import os  # noqa: E402
+import tempfile  # noqa: E402
+
+
+def _mk(imr0, ten, mti, sti, main, handler):
+    emu = PCE500Emulator(save_lcd_on_exit=False)
+    rom = bytearray(0x40000)
+    rom[MAIN - 0xC0000:MAIN - 0xC0000 + len(main)] = main
+    rom[HANDLER - 0xC0000:HANDLER - 0xC0000 + len(handler)] = handler
+    rom[0x3FFFA:0x3FFFD] = HANDLER.to_bytes(3, "little")
+    emu.load_rom(bytes(rom))
+    emu.cpu.regs.set(R.PC, MAIN)
+    emu.cpu.regs.set(R.S, STACK)
+    emu.cpu.regs.set(R.U, 0xB8000)
+    emu.memory.write_byte(IMEM + 0xFB, imr0)
+    emu.memory.write_byte(IMEM + 0xFC, 0)
+    emu._timer_enabled = ten
+    emu._timer_mti_period = mti
+    emu._timer_sti_period = sti
+    emu._timer_next_mti = emu.cycle_count + mti
+    emu._timer_next_sti = emu.cycle_count + sti
+    return emu
+
+
+def _obs(emu):
+    g = emu.cpu.regs.get
+    return (f"{g(R.PC)},{g(R.BA)},{g(R.I)},{g(R.S)},{g(R.F) & 3},{emu.memory.read_byte(IMEM + 0xFB) & 0xFF},{emu.memory.read_byte(IMEM + 0xFC) & 0xFF},"
+            f"{int(bool(emu._in_interrupt))},{int(emu.irq_counts.get('total', 0))},{int(bool(emu.cpu.state.halted))}")
+
+
+def _digest(emu):
+    h = hashlib.sha256()
+    h.update(bytes(emu.memory.external_memory[0xB8000:0xC0000]))
+    h.update(bytes(emu.memory.get_internal_memory_bytes()))
+    try:
+        buf = emu.lcd.get_display_buffer()
+        h.update(bytes(int(v) & 0xFF for row in buf for v in row))
+    except Exception:  # noqa: BLE001
+        pass
+    return h.hexdigest()[:16]
+
+
+def _run(emu, events, start, n, out):
+    for k in range(start, start + n):
+        for kind in events.get(k, []):
+            if kind == "onk":
+                emu.press_key("KEY_ON")
+            elif kind.startswith("key"):
+                emu.press_key(kind[3:])
+            elif kind.startswith("rel"):
+                emu.release_key(kind[3:])
+        try:
+            emu.step()
+        except Exception as e:  # noqa: BLE001
+            out.append(f"ERR:{type(e).__name__}")
+            return
+        out.append(_obs(emu))
+
+
+def snap(w):
+    """snap <imr0> <timer_en> <mti> <sti> <mainhex> <handlerhex> <k> <m> <events>"""
+    imr0, ten, mti, sti = int(w[0]), w[1] != "0", int(w[2]), int(w[3])
+    main = bytes.fromhex(w[4]) if w[4] != "-" else b""
+    handler = bytes.fromhex(w[5]) if w[5] != "-" else b""
+    k, m = int(w[6]), int(w[7])
+    events = {}
+    if len(w) > 8 and w[8] != "-":
+        for t in w[8].split(","):
+            kk, kind = t.split(":")
+            events.setdefault(int(kk), []).append(kind)
+    a = _mk(imr0, ten, mti, sti, main, handler)
+    pre = []
+    _run(a, events, 0, k, pre)
+    d = tempfile.mkdtemp(prefix="snap", dir=os.environ.get("VERIF_TMP", None))
+    path = os.path.join(d, "s.pcsnap")
+    try:
+        a.save_snapshot(path)
+        b = _mk(0, False, 0, 0, main, handler)
+        b.load_snapshot(path)
+    except Exception as e:  # noqa: BLE001
+        return f"SNAPERR {type(e).__name__}:{str(e)[:80].replace(' ', '_')}"
+    finally:
+        try:
+            os.remove(path)
+            os.rmdir(d)
+        except OSError:
+            pass
+    at_a, at_b = _obs(a), _obs(b)
+    ta, tb = [], []
+    _run(a, events, k, m, ta)
+    _run(b, events, k, m, tb)
+    return f"AT {at_a} | RESTORED {at_b} | A {';'.join(ta)} | B {';'.join(tb)} | DA {_digest(a)} | DB {_digest(b)}"
+
+
+def snapload(w):
+    """snapload <path> <mainhex> <handlerhex>: load a bundle (written by either implementation) into a fresh PCE500Emulator, print the state"""
+    main = bytes.fromhex(w[1]) if w[1] != "-" else b""
+    handler = bytes.fromhex(w[2]) if w[2] != "-" else b""
+    import contextlib
+    import io
+    b = _mk(0, False, 0, 0, main, handler)
+    try:
+        with contextlib.redirect_stdout(io.StringIO()):  # the loader prints a backend-mismatch notice
+            b.load_snapshot(w[0])
+    except Exception as e:  # noqa: BLE001
+        return f"SNAPERR {type(e).__name__}:{str(e)[:80].replace(' ', '_')}"
+    finally:
+        try:
+            os.remove(w[0])
+        except OSError:
+            pass
+    return "LOADED " + _obs(b)
+
+
+def snapsave(w):
+    """snapsave <imr0> <timer_en> <mti> <sti> <mainhex> <handlerhex> <k> <path> <events>: run k steps, save a bundle at <path>
+    (members re-stored uncompressed, same names and bytes, so that the offline zip shim of the Rust harness can read it)"""
+    import zipfile
+    imr0, ten, mti, sti = int(w[0]), w[1] != "0", int(w[2]), int(w[3])
+    main = bytes.fromhex(w[4]) if w[4] != "-" else b""
+    handler = bytes.fromhex(w[5]) if w[5] != "-" else b""
+    k, path = int(w[6]), w[7]
+    events = {}
+    if len(w) > 8 and w[8] != "-":
+        for t in w[8].split(","):
+            kk, kind = t.split(":")
+            events.setdefault(int(kk), []).append(kind)
+    a = _mk(imr0, ten, mti, sti, main, handler)
+    _run(a, events, 0, k, [])
+    try:
+        a.save_snapshot(path)
+        with zipfile.ZipFile(path) as z:
+            members = [(n, z.read(n)) for n in z.namelist()]
+        with zipfile.ZipFile(path, "w", zipfile.ZIP_STORED) as z:
+            for n, data in members:
+                z.writestr(n, data)
+    except Exception as e:  # noqa: BLE001
+        return f"SNAPERR {type(e).__name__}:{str(e)[:80].replace(' ', '_')}"
+    return "SAVED " + _obs(a)
